@@ -346,11 +346,10 @@ theorem step_inv (w : Nat) (isIn : Nat → Bool) : (it : It) → (c : Ctx) → I
     obtain ⟨f, fs, hc, hf⟩ := hv
     simp only [depth] at hl
     simp only [It.SWF, ItState.SWF] at hs
-    obtain ⟨n, hn⟩ := ctx_get_of_has c ls.var f fs hc hf
-    simp only [step, hn]
+    simp only [step]
     split
-    · obtain ⟨hi2, ha2⟩ := abs_set_ctx c ls.var (satSucc n) hi
-      have ha3 : (c.set ls.var (satSucc n)).vars.abs = Scopes.bind ls.var (satSucc n) f :: fs := by
+    · obtain ⟨hi2, ha2⟩ := abs_set_ctx c ls.var (satSucc ls.cur) hi
+      have ha3 : (c.set ls.var (satSucc ls.cur)).vars.abs = Scopes.bind ls.var (satSucc ls.cur) f :: fs := by
         rw [ha2, hc]; rfl
       simp only [Post, Good, depth]
       refine ⟨by simp [It.SWF, ItState.SWF, hs.1, hs.2], hi2, ?_, ?_, ?_⟩
